@@ -78,6 +78,8 @@ func handleALIGNB(params x86genParams, ctx *CodeGenContext) ([]byte, error) {
 
 	// x86genParams から現在のバイトコード長を取得
 	currentLength := params.MachineCodeLen
+	// アライメントは出力長ではなくアドレス (ORG + 出力長) を基準にする (pass1 の LOC 計算と一致させる)
+	currentLength += int(ctx.DollarPosition)
 	paddingSize := (alignBoundary - (currentLength % alignBoundary)) % alignBoundary
 
 	if paddingSize > 0 {
